@@ -84,6 +84,35 @@ func Gen(r *hx.Rng, tier string, w io.Writer) {
 			x.drain(5)
 		}
 	}
+	// the execution layer fails while a block freshly built from a batch is produced: the retry reuses the block saved
+	// early; so does a restart ("the node died during ExecuteTxs") and a crash at every write boundary of the failed step
+	for _, after := range []string{"", "restart", "crash keep=0", "crash keep=1", "crash keep=2", "crash keep=3", "crash keep=4"} {
+		x.reset(0)
+		x.arrive(2)
+		fmt.Fprintln(w, "reap")
+		x.arrive(1)
+		fmt.Fprintln(w, "produce exec=fail")
+		if after != "" {
+			fmt.Fprintln(w, after)
+		}
+		fmt.Fprintln(w, "reap")
+		fmt.Fprintln(w, "produce")
+		x.drain(5)
+	}
+	// … twice in a row, and while the pending block itself is re-executed; a failure with an empty queue
+	x.reset(0)
+	fmt.Fprintln(w, "produce exec=fail")
+	x.arrive(3)
+	fmt.Fprintln(w, "reap")
+	fmt.Fprintln(w, "produce exec=fail")
+	fmt.Fprintln(w, "produce exec=fail")
+	fmt.Fprintln(w, "restart")
+	fmt.Fprintln(w, "produce exec=fail")
+	fmt.Fprintln(w, "crash keep=0")
+	fmt.Fprintln(w, "produce")
+	x.arrive(2)
+	fmt.Fprintln(w, "reap")
+	x.drain(5)
 	n := 60
 	if tier == "thorough" {
 		n = 800
@@ -95,6 +124,7 @@ func Gen(r *hx.Rng, tier string, w io.Writer) {
 		}
 		x.reset(qmax)
 		crashes := r.Chance(25)
+		execFails := r.Chance(35)
 		steps := 5 + r.Intn(20)
 		for j := 0; j < steps; j++ {
 			switch r.Intn(8) {
@@ -103,7 +133,11 @@ func Gen(r *hx.Rng, tier string, w io.Writer) {
 			case 2, 3:
 				fmt.Fprintln(w, "reap")
 			case 4, 5:
-				fmt.Fprintln(w, "produce")
+				if execFails && r.Chance(30) {
+					fmt.Fprintln(w, "produce exec=fail")
+				} else {
+					fmt.Fprintln(w, "produce")
+				}
 			case 6:
 				fmt.Fprintln(w, "restart")
 			default:
